@@ -359,6 +359,10 @@ def _eval_kripke_obj(I, o, p, env):
 
 # ---------------------------------------------------------------------------
 
+def _s2(x):
+    return sorted(x, key=repr) if isinstance(x, (set, frozenset)) else x
+
+
 def rule_k3(prog, adj):
     LABELS[0] = labels_field(prog)
     S0F[0] = s0_field(prog)
@@ -368,6 +372,15 @@ def rule_k3(prog, adj):
     kc = prog.cls('kripke.Kripke')
     K = Sym('K', ('inst', kc))
     structs = small_structures()[:60]
+
+    def rename(ks, a, b):
+        m = lambda x: b if x == a else x
+        g = CG([m(n) for n in ks.g.nodes],
+               {m(n): set(m(x) for x in ks.g.succ[n]) for n in ks.g.nodes})
+        return KS(g, frozenset(m(x) for x in ks.S0),
+                  {m(n): l for n, l in ks.labels.items()})
+    # any hashable object can be a state -- None too
+    structs = structs + [rename(ks, 0, None) for ks in structs[:24]]
     for name in ('labels', 'next'):
         f = prog.method(kc, name)
         hooks = _KHooks(prog)
@@ -376,6 +389,7 @@ def rule_k3(prog, adj):
         s = Sym('s')
         res = I.call_function(FRef(f), [K, s], [], path, f.node)
         bad = None
+        bad_none = None
         nm = 0
         try:
             for ks in structs:
@@ -401,12 +415,25 @@ def rule_k3(prog, adj):
                             except GraphError as e:
                                 got = 'internal error: %s' % e
                         break
-                    if got != want and bad is None:
+                    if got != want and sv is None and bad_none is None:
+                        bad_none = (ks, sv, got, want)
+                    elif got != want and sv is not None and bad is None:
                         bad = (ks, sv, got, want)
         except NotEvaluable as e:
             raise Inconclusive('R-K-3', 'Kripke.%s not evaluable: %s' % (
                 name, e), f.where())
         r.inst(method=f.short(), models=nm, paths=len(res))
+        if bad_none:
+            ks, sv, got, want = bad_none
+            r.fail(Finding(
+                PROP, 'R-K-3', f.where(), f.short(),
+                'accessor:%s:state-None' % name,
+                'Kripke.%s(None) on %r, where None is a state, gives %r, '
+                'expected %r: the value None is taken for "no state given"'
+                % (name, ks, _s2(got), _s2(want)),
+                expected=repr(_s2(want)), found=repr(_s2(got))))
+        else:
+            r.ok()
         if bad:
             r.fail(Finding(
                 PROP, 'R-K-3', f.where(), f.short(), 'accessor:' + name,
